@@ -169,6 +169,10 @@ def _tmpdir():
 def canon_report(e):
     cls = type(e).__name__
     msg = e.args[0] if e.args else ''
+    if isinstance(msg, int):
+        msg = str(msg)          # warning$ on an integer: BibTeXError(n), printed as str(n)
+    elif not isinstance(msg, str):
+        msg = OBJECT_TAG        # an object: its repr may contain a memory address
     if cls == 'InvalidNameString':
         import ast
         try:
@@ -178,7 +182,33 @@ def canon_report(e):
     return [cls, msg]
 
 
+OBJECT_TAG = '<object>'
+_OBJ_REPR = ('Function(', 'Integer(', 'String(', 'EntryInteger(', 'EntryString(', '<pybtex.bibtex.interpreter.', '<builtin ')
+
+
+def errclass_view(case, io):
+    """View of an engine result for the ill-typed family: the print-out of a function / variable object (Python repr, may contain a
+    memory address) becomes the tag the model prints; where the table UNMODELLED says that Python computes the repr of an object
+    (or defers the failure to the next newline$) every outcome but a BibTeXError is the class UNMODELLED."""
+    if case.get('unmodelled'):
+        if 'error' in io and io['error'][0] not in ('INTERNAL',):
+            return io
+        return {'error': ['UNMODELLED']}
+    if 'error' in io:
+        return {'error': io['error']}
+    io = dict(io)
+    io['printed'] = [OBJECT_TAG if l.startswith(_OBJ_REPR) else l for l in io['printed']]
+    return io
+
+
 def impl(case):
+    io = impl_raw(case)
+    if case.get('errclass'):
+        return errclass_view(case, io)
+    return io
+
+
+def impl_raw(case):
     import pybtex.io
     from pybtex import errors
     from pybtex.bibtex import format_from_strings
@@ -233,6 +263,8 @@ def to_request(case):  # noqa: F811
 def model_out(case, reply):
     o = reply['out']
     if 'error' in o:
+        if case.get('errclass') and o['error'][0] == 'INTERNAL' and o['error'][1].startswith('unmodelled:'):
+            return {'error': ['UNMODELLED']}
         return {'error': [o['error'][0]]}
     return o
 
@@ -249,6 +281,12 @@ def oracle(case, io, reply):
     fails = []
     mo = model_out(case, reply)
     if ('error' in io and io['error'][0] == 'OUT-OF-FUEL') or ('error' in mo and mo['error'][0] == 'OUT-OF-FUEL'):
+        return fails
+    if case.get('errclass'):
+        # ill-typed family: engine and semantics must agree on the class (ok + same output / BibTeXError / INTERNAL / UNMODELLED)
+        if compare_view(io) != mo:
+            fails.append('illtyped_class: engine %r, semantics %r; program=%r' % (
+                {k: io.get(k) for k in ('error', 'detail', 'printed', 'bbl', 'reports') if k in io}, mo, case['bst'][-200:]))
         return fails
     if 'error' in io and io['error'][0] == 'INTERNAL' and case.get('welltyped', True):
         fails.append('builtins_documented: a well-typed program raised a non-pybtex exception: %s; program=%r' % (io.get('detail'), case['bst'][-300:]))
@@ -409,6 +447,56 @@ def multipass_program(rng):
     return '\n'.join(lines) + '\n'
 
 
+# ---- ill-typed family: every built-in on every stack of depth 0..3 over one operand of each kind -----------------------------------
+ALL_BUILTINS = ['>', '<', '=', '*', ':=', '+', '-', 'add.period$', 'call.type$', 'change.case$', 'chr.to.int$', 'cite$', 'duplicate$',
+                'empty$', 'format.name$', 'if$', 'int.to.chr$', 'int.to.str$', 'missing$', 'newline$', 'num.names$', 'pop$', 'preamble$',
+                'purify$', 'quote$', 'skip$', 'substring$', 'stack$', 'swap$', 'text.length$', 'text.prefix$', 'top$', 'type$', 'warning$',
+                'while$', 'width$', 'write$']
+# (source text, kind): integers 0 / 1 / 2 (0 is falsy in Python), a string that is also a valid change.case$ mode and format, a missing
+# field, a quoted global variable, a function literal
+ILL_POOL = [('#0', 'I'), ('#1', 'I'), ('#2', 'I'), ('"t"', 'S'), ('volume', 'M'), ("'gi", 'O'), ('{ skip$ }', 'O')]
+# second pool (depth <= 2): every kind of variable object
+ILL_POOL2 = [("'gi", 'O'), ("'gs", 'O'), ("'count", 'O'), ("'label", 'O'), ("'title", 'O'), ("'crossref", 'O'), ("'skip$", 'O'),
+             ("'helper", 'O'), ('{ skip$ }', 'O'), ('{ #1 }', 'O'), ('#1', 'I'), ('"a"', 'S'), ('""', 'S')]
+ILL_HEADER = ('ENTRY { title volume } { count } { label }\nINTEGERS { gi gj }\nSTRINGS { gs gt }\nFUNCTION {helper} { skip$ }\n')
+
+
+def unmodelled(builtin, ops):
+    """The cases where Python's ordinary result involves the repr of an object (or the failure is deferred): the model declares them
+    `unmodelled` (LEVEL_NOTE).  ops: (source, kind) bottom to top."""
+    k = [o[1] for o in ops]
+    if builtin in ('int.to.str$', 'warning$'):
+        return len(k) >= 1 and k[-1] == 'O'
+    if builtin == 'write$':
+        return len(k) >= 1 and k[-1] in ('I', 'O')
+    if builtin == 'format.name$':
+        return len(k) >= 3 and k[-2] == 'I' and ops[-2][0] == '#0' and k[-3] == 'O'
+    return False
+
+
+def illtyped_case(builtin, ops, family):
+    src = ILL_HEADER + 'FUNCTION {main} { %s %s stack$ newline$ }\nREAD\nITERATE {main}\n' % (' '.join(o[0] for o in ops), builtin)
+    c = {'op': 'bstrun', 'bst': src, 'bibs': [BIB], 'citations': ['Knuth84'], 'min_crossrefs': 2, 'family': family, 'errclass': True,
+         'fuel': 20000, 'timeout': 20}
+    if unmodelled(builtin, ops):
+        c['unmodelled'] = True
+    return c
+
+
+def illtyped_cases():
+    out = []
+    for b in ALL_BUILTINS:
+        for d in range(4):
+            for ops in itertools.product(ILL_POOL, repeat=d):
+                out.append(illtyped_case(b, ops, 'illtyped%d' % d))
+        for d in (1, 2):
+            for ops in itertools.product(ILL_POOL2, repeat=d):
+                if b == 'while$' and d == 2 and ops[0][0] == '{ #1 }' and ops[1][1] == 'O':
+                    continue        # { #1 } f while$ with an executable f does not terminate
+                out.append(illtyped_case(b, ops, 'illtyped-objects%d' % d))
+    return out
+
+
 def gen_cases(tier, rng, info):
     cases = []
     maxlen = 2 if tier == 'quick' else 3
@@ -432,6 +520,11 @@ def gen_cases(tier, rng, info):
         for body, types in rng.sample(three, min(2500, len(three))):
             if len(body) == 3:
                 cases.append(mk(' '.join(body), types, 'straight3-sample'))
+    ill = illtyped_cases()
+    cases.extend(ill)
+    info['scope'] += ('; ill-typed: all %d programs "operands built-in" for each of the %d built-ins on every stack of depth 0..3 over %r and of '
+                      'depth 1..2 over %r (agreement on ok+output / BibTeXError / INTERNAL)' % (
+                          len(ill), len(ALL_BUILTINS), [o[0] for o in ILL_POOL], [o[0] for o in ILL_POOL2]))
     cite_sets = [CITES, ['*'], ['lamport:86', 'unused', 'KNUTH84'], ['nokey', 'Knuth84'], ['parent', 'lamport:86']]
     for _ in range(1500 if tier == 'quick' else 30000):
         cases.append({'op': 'bstrun', 'bst': random_program(rng), 'bibs': [BIB], 'citations': rng.choice(cite_sets),
